@@ -83,6 +83,52 @@ def values_for(bits, W, rnd, nrand):
     return sorted(vs)
 
 
+
+# ---- calls with compile-time constant arguments -------------------------------------------------------------------
+# An inline function may treat a literal argument differently from a run-time value (constant folding paths guarded
+# by __builtin_constant_p, as in linux/swab.h): harness/bf_consts.inc holds one literal call per table row, written
+# from this table on every run.
+
+def const_table():
+    rows = []
+    k = 0
+    for kind in "us":
+        for bits in WIDTHS:
+            W = rw(bits)
+            n = bits // 8
+            if kind == "u":
+                vals = [1, (1 << bits) - 1, 1 << (bits - 1), sum((lane + 1) << (8 * lane) for lane in range(n)),
+                        (1 << W) - 1, (0xa5a5a5a5a5a5a5a5 & ((1 << W) - 1))]
+            else:
+                vals = [-1, -2, -(1 << (bits - 1)), (1 << (bits - 1)) - 1, -4660 if bits > 16 else -466, -500, 0x12,
+                        -(sum((lane + 1) << (8 * lane) for lane in range(n)) >> 1)]
+            for order in "nbl":
+                for v in vals:
+                    pat = v & ((1 << W) - 1)
+                    if kind == "u":
+                        lit = "0x%xu" % v if W < 64 else "0x%xull" % v
+                    else:
+                        if W == 64:
+                            lit = "(-%dll - 1)" % (-v - 1) if v < 0 else "%dll" % v
+                        else:
+                            lit = "(%d)" % v
+                    rows.append((k, "bf_set_%s%d%s" % (kind, bits, order), n, lit, pat, W))
+                    k += 1
+    return rows
+
+
+def gen_consts():
+    import os, vf
+    lines = ["/* GENERATED by tools/props/C15.py (const_table) - do not edit: one call with a literal argument per row */"]
+    for k, name, n, lit, pat, W in const_table():
+        lines.append("X(%d, %s, %d, %s, 0x%xull)" % (k, name, n, lit, pat))
+    vf.write_if_changed(os.path.join(vf.HARNESS, "bf_consts.inc"), "\n".join(lines) + "\n")
+    return {"bf_consts.inc": "generated(%d literal calls)" % len(const_table())}
+
+
+GEN.append(gen_consts)
+
+
 def cases(tier, seed):
     rnd = random.Random(seed)
     cs = []
@@ -117,6 +163,8 @@ def cases(tier, seed):
                             lo = rnd.choice([0, 0x7f0000, 0x800000 - 0x8000, 0xff0000]) + rnd.randint(0, 0x7fff)
                             cs.append(Case("sweep-%s24%s" % (kind, order), ["bf.sweep bf_ref_%s24%s %d %d" % (kind, order, lo, lo + 0x8000),
                                                                              "bf.sweep bf_set_%s24%s %d %d" % (kind, order, lo, lo + 0x8000)], ("sweep",)))
+    # literal arguments
+    cs.append(Case("consts", ["bf.setc %d %s %0*x" % (k, name, W // 4, pat) for k, name, n, lit, pat, W in const_table()], ("codec", "constant-arguments")))
     # swaps
     ops = []
     for bits in WIDTHS:
